@@ -71,6 +71,20 @@ def per_count(name, counts_quick=(0, 1, 2), counts_thorough=(0, 1, 2, 3), label=
         U("%s_n%d" % (name, n), **k)
 
 
+def nofail_twin(name, **over):
+    """the same unit without allocation failure (-DCFGV_NO_ALLOC_FAILURE): there a legal call MUST succeed - under
+    'any allocation may fail' a result of failure is always excusable, so a body that never succeeds would pass"""
+    src = [u for u in UNITS if u["name"] == name][0]
+    k = {x: (dict(y) if isinstance(y, dict) else (list(y) if isinstance(y, list) else y)) for x, y in src.items() if x != "name"}
+    k["defs"] = {t: list(v) + ["-DCFGV_NO_ALLOC_FAILURE"] for t, v in src["defs"].items()}
+    cb = src["cbmc"]
+    strip = lambda fl: [f for f in fl if f not in ("--no-malloc-may-fail", "--malloc-may-fail", "--malloc-fail-null")] + ["--no-malloc-may-fail"]
+    k["cbmc"] = {t: strip(v) for t, v in cb.items()} if isinstance(cb, dict) else strip(cb)
+    k["label"] = src["label"].replace("any allocation may fail", "no allocation failure") + "; no allocation failure: a legal call must succeed"
+    k.update(over)
+    U(name + "_nofail", **k)
+
+
 FLAGTXT = "6 literal flag words covering every RESET/LIST/MULTI combination; index, values symbolic"
 per_count("opt_getval", entry="h_opt_getval", func="cfg_opt_getval", harness="harness/store.c", cbmc=unw(6) + OOM, label=FLAGTXT, replay="replay/store_api.c",
           props=["C09", "C10", "C18", "C07", "C02"], cost=30, **CF)
@@ -80,6 +94,8 @@ per_count("opt_setnfloat_bool", entry="h_opt_setnfloat_bool", func="cfg_opt_setn
           label=FLAGTXT, props=["C09", "C10", "C18", "C07", "C02"], cost=40, **CF)
 per_count("opt_setnstr", entry="h_opt_setnstr", func="cfg_opt_setnstr", harness="harness/store.c", cbmc=unw(6) + OOM, label=FLAGTXT + "; strings <= 2 bytes", replay="replay/store_str.c",
           props=["C09", "C10", "C18", "C16", "C07", "C02"], cost=60, **CF)
+for _n in ("opt_getval_n0", "opt_getval_n1", "opt_setnint_n0", "opt_setnint_n1", "opt_setnfloat_bool_n1", "opt_setnstr_n0", "opt_setnstr_n1"):
+    nofail_twin(_n, tiers=("quick", "thorough"))
 U("setnstr_release", entry="h_setnstr_release", func="cfg_opt_setnstr", harness="harness/store.c", defs={"quick": ["-DNV=2"]}, cbmc=unw(6) + NOOOM + LEAK,
   label="bounded(a set scalar string option, strings <= 2 bytes; no allocation failure; leak check)", props=["C07", "C09", "C02"], cost=5, **CF)
 U("opt_setcomment", entry="h_opt_setcomment", func="cfg_opt_setcomment", harness="harness/store.c", defs={"quick": ["-DNV=2"]}, cbmc=unw(6) + OOM + LEAK,
@@ -295,6 +311,11 @@ U("addtsec", entry="h_addtsec", func="cfg_addtsec, cfg_gettsec, cfg_opt_gettsec,
 for _sc in ("assign", "list", "append", "call", "emptysec", "sec", "titled", "nested", "twoassign"):
     U("parse_script_" + _sc, entry="h_script_" + _sc, cbmc=unw(20) + NOOOM, defs={"quick": []},
       label="bounded(one concrete token script: undeclared item '%s' followed by i = 5; nested activations run for real)" % _sc, props=["C12", "C06", "C02"], cost=10, **PARSEC)
+
+# ------------------------------------------------------------------ "must succeed" twins (no allocation failure)
+for _n in ("opt_setcomment", "addval_n0", "addval_n1", "setmulti_n0m2", "setmulti_n1m1", "setnint_byname_n1", "setnstr_byname", "setnfloat_byname", "setopt_pcb_int_n1", "setopt_pcb_fb_n1",
+           "setopt_ptr_n1", "setopt_sec_n0", "dupopt_n1p1", "dupopt_n2p1", "cfg_init", "addopt", "make_fullpath", "tilde_expand", "add_searchpath", "call_function"):
+    nofail_twin(_n, tiers=("quick", "thorough"))
 
 # ------------------------------------------------------------------ the by-name convenience layer
 WRAPC = dict(harness="harness/wrappers.c", defs={"quick": []})
